@@ -28,8 +28,13 @@ type Family struct {
 	Extra []Pkg
 	// ExtraPaths: further package paths whose persisted objects belong to the family's state.
 	ExtraPaths []string
+	// QuickN overrides the quick-tier menu size for this family (0 = harness default).
+	QuickN int
 	// Wrapper overrides the default gno-only wrapper file (must define Do(cur realm, ops string) string).
 	Wrapper string
+	// NoRef: the family has no Go / in-memory reference (multi-realm logic). Observations of the different cuts of a
+	// sequence are compared with each other instead; a transaction may legitimately abort (state unchanged).
+	NoRef bool
 
 	mu  sync.Mutex
 	ref map[string]RefEntry
@@ -215,6 +220,22 @@ func (x *Explorer) addMis(m Mismatch) {
 type taskMemo struct {
 	sub  map[string]int    // state -> largest remaining depth already expanded from it
 	cold map[string]string // state -> result of the cold-dump transaction
+	obs  map[string][]obsEntry
+}
+
+type obsEntry struct{ hist, dump string }
+
+func abortClass(log string) string {
+	l := FirstLine(log)
+	for _, k := range []string{"readonly", "cannot allocate", "illegal conversion", "out of gas", "nil pointer", "cannot persist", "unexpected unreal object", "invariant violation"} {
+		if strings.Contains(log, k) {
+			return k
+		}
+	}
+	if len(l) > 60 {
+		l = l[:60]
+	}
+	return l
 }
 
 type task struct {
@@ -269,8 +290,23 @@ func (x *Explorer) Run() {
 	x.R.ParFor(len(tasks), func(i int) {
 		e := x.getEnv()
 		t := tasks[i]
-		memo := &taskMemo{sub: map[string]int{}, cold: map[string]string{}}
+		memo := &taskMemo{sub: map[string]int{}, cold: map[string]string{}, obs: map[string][]obsEntry{}}
 		x.dfs(e, t, nil, "", memo)
+		// families without a reference: all cuts of one op sequence must agree on the final dump
+		var seqs []string
+		for q := range memo.obs {
+			seqs = append(seqs, q)
+		}
+		sort.Strings(seqs)
+		for _, q := range seqs {
+			os := memo.obs[q]
+			for _, o := range os[1:] {
+				if o.dump != os[0].dump {
+					x.addMis(Mismatch{Fam: t.f.Name, Class: "cuts-disagree", Hist: strings.Split(o.hist, "|"), Seq: q, Got: o.dump, Want: os[0].dump, Extra: "reference cut: " + os[0].hist})
+					break
+				}
+			}
+		}
 		x.putEnv(e)
 	})
 }
@@ -323,12 +359,27 @@ func (x *Explorer) node(e *Env, t task, hist []string, seq string, memo *taskMem
 	x.Nodes.Add(1)
 	hkey := f.Name + ":" + strings.Join(hist, "|")
 	x.R.Distinct(hkey)
-	ref, refOK := f.MemRef(seq)
-	if !refOK {
-		x.R.HarnessError("in-memory GnoVM run of %s %q failed: %s", f.Name, seq, LastMemPanic)
+	var ref RefEntry
+	want := ""
+	if !f.NoRef {
+		var refOK bool
+		ref, refOK = f.MemRef(seq)
+		if !refOK {
+			x.R.HarnessError("in-memory GnoVM run of %s %q failed: %s", f.Name, seq, LastMemPanic)
+		}
+		want = strings.Join(ref.Rets[len(seq)-len(seg):], ";") + ";#" + ref.Dump
 	}
-	want := strings.Join(ref.Rets[len(seq)-len(seg):], ";") + ";#" + ref.Dump
 	s, ok := res.Str()
+	if f.NoRef && !res.OK {
+		// aborted transaction: nothing may have changed; the graph must still be consistent
+		x.R.Outcome("tx-aborted:" + abortClass(res.Log))
+		if x.Graph != nil {
+			for _, gi := range x.Graph(e, f) {
+				x.addMis(Mismatch{Fam: f.Name, Class: "graph:" + gi.Kind, Hist: hist, Seq: seq, Got: gi.Detail})
+			}
+		}
+		return
+	}
 	if !res.OK || !ok {
 		x.R.Outcome("tx-failed")
 		x.addMis(Mismatch{Fam: f.Name, Class: "tx-failed", Hist: hist, Seq: seq, Got: FirstLine(res.Log), Want: want})
@@ -344,22 +395,28 @@ func (x *Explorer) node(e *Env, t task, hist []string, seq string, memo *taskMem
 		x.single[f.Name+"|"+seq] = s
 		x.mu.Unlock()
 	}
-	bad := false
+	bad, graphBad := false, false
+	if f.NoRef {
+		memo.obs[seq] = append(memo.obs[seq], obsEntry{strings.Join(hist, "|"), dump})
+	}
 	for i := range rets {
+		if f.NoRef {
+			break
+		}
 		if rets[i] != ref.Rets[len(seq)-len(seg)+i] {
 			x.addMis(Mismatch{Fam: f.Name, Class: "ret", Hist: hist, Seq: seq, Got: s, Want: want, Extra: fmt.Sprintf("op #%d '%c'", len(seq)-len(seg)+i, seg[i])})
 			bad = true
 			break
 		}
 	}
-	if dump != ref.Dump {
+	if !f.NoRef && dump != ref.Dump {
 		x.addMis(Mismatch{Fam: f.Name, Class: "dump-hot", Hist: hist, Seq: seq, Got: s, Want: want})
 		bad = true
 	}
 	if x.Graph != nil {
 		for _, gi := range x.Graph(e, f) {
 			x.addMis(Mismatch{Fam: f.Name, Class: "graph:" + gi.Kind, Hist: hist, Seq: seq, Got: gi.Detail})
-			bad = true
+			graphBad = true
 		}
 	}
 	sh := StateHash(e, f)
@@ -395,7 +452,11 @@ func (x *Explorer) node(e *Env, t task, hist []string, seq string, memo *taskMem
 		x.R.Outcome("mismatch")
 		return // do not expand below a deviating node (its descendants would only repeat it)
 	}
-	x.R.Outcome(fmt.Sprintf("ok:txs=%d", len(hist)))
+	if graphBad {
+		x.R.Outcome("graph-issue") // the realm still works: keep expanding
+	} else {
+		x.R.Outcome(fmt.Sprintf("ok:txs=%d", len(hist)))
+	}
 	remaining := x.K - len(seq)
 	if remaining <= 0 {
 		return
@@ -430,6 +491,9 @@ func (x *Explorer) ReportOnly(prefix string) {
 	count := map[key]int{}
 	for _, m := range mis {
 		k := key{m.Fam, m.Class}
+		if strings.HasPrefix(m.Class, "graph:") {
+			k.fam = "" // graph invariants: one key per kind (minimal history over all families)
+		}
 		count[k]++
 		b, ok := best[k]
 		if !ok || len(m.Seq) < len(b.Seq) || (len(m.Seq) == len(b.Seq) && (m.cuts() < b.cuts() || (m.cuts() == b.cuts() && strings.Join(m.Hist, "|") < strings.Join(b.Hist, "|")))) {
@@ -466,9 +530,13 @@ func (x *Explorer) ReportOnly(prefix string) {
 			single = s
 		}
 		x.mu.Unlock()
-		x.R.Violation(fmt.Sprintf("%s:%s:txs=[%s]", m.Fam, k.class, strings.Join(m.Hist, "|")), map[string]any{
+		vkey := fmt.Sprintf("%s:%s:txs=[%s]", m.Fam, k.class, strings.Join(m.Hist, "|"))
+		if k.fam == "" {
+			vkey = k.class
+		}
+		x.R.Violation(vkey, map[string]any{
 			"family": m.Fam, "class": k.class, "transactions": m.Hist, "ops": f.Describe(m.Seq), "got": m.Got, "want_in_memory_gnovm": m.Want, "extra": m.Extra,
-			"go_native": strings.Join(f.Ref(m.Seq).Rets, ";") + ";#" + f.Ref(m.Seq).Dump, "same_ops_in_one_tx": single,
+			"go_native": f.goNative(m.Seq), "same_ops_in_one_tx": single,
 			"confirmation": confirmed, "same_class_count": count[k], "note": "minimal history of its class (shortest sequence, fewest transactions)",
 		})
 	}
@@ -492,6 +560,14 @@ func (x *Explorer) Replay(f *Family, m Mismatch) (string, error) {
 		return s, nil
 	}
 	return FirstLine(last.Log), nil
+}
+
+func (f *Family) goNative(seq string) string {
+	if f.NoRef || f.Op == nil {
+		return "n/a"
+	}
+	g := f.Ref(seq)
+	return strings.Join(g.Rets, ";") + ";#" + g.Dump
 }
 
 // Describe spells out an op sequence.
@@ -518,6 +594,9 @@ type GoDiff struct {
 func (x *Explorer) GoDiffs() []GoDiff {
 	var out []GoDiff
 	for _, f := range x.Fams {
+		if f.NoRef {
+			continue
+		}
 		var d *GoDiff
 		var gen func(s string)
 		gen = func(s string) {
